@@ -23,8 +23,10 @@ Notation "'LIT' s" := (ltac:(let v := eval vm_compute in (lit s%string) in exact
 
 (* ---------- values and their Display ---------- *)
 
-(* f64 values are taken from the grid of multiples of 1/4, plus the non-finite ones *)
-Inductive fl : Type := FQ (q : Z) | FNaN | FInf (neg : bool).
+(* f64 values: the grid of multiples of 1/4 (small magnitudes), whole numbers of any magnitude
+   given by the digits of their shortest representation (mantissa digits followed by zeros: what
+   core::fmt prints for them; e.g. 2^64 is 18446744073709552 and three zeros), and the non-finite ones *)
+Inductive fl : Type := FQ (q : Z) | FW (neg : bool) (mant : str) (zeros : nat) | FNaN | FInf (neg : bool).
 
 Inductive value : Type :=
 | VNull
@@ -68,6 +70,7 @@ Definition float_str (f : fl) : str :=
        | 2 => LIT ".5"
        | _ => LIT ".75"
        end)
+  | FW neg mant zeros => (if neg then [45] else []) ++ mant ++ repeat 48 zeros
   | FNaN => LIT "NaN"
   | FInf false => LIT "inf"
   | FInf true => LIT "-inf"
